@@ -2,6 +2,7 @@ package ftdc
 
 import (
 	"context"
+	"github.com/mongodb/ftdc/verifhook"
 
 	"github.com/mongodb/ftdc/util"
 )
@@ -25,6 +26,7 @@ func NewBufferedCollector(ctx context.Context, size int, coll Collector) Collect
 
 	go func() {
 		for {
+			verifhook.Point("buffered.drain")
 			select {
 			case <-ctx.Done():
 				if len(c.pipe) != 0 {
